@@ -429,6 +429,23 @@ func init() {
 			}
 			return strconv.Quote(args[0].(string)), true
 		},
+		// concrete fast paths (symbolic strings fall through to the interpreted library code)
+		"strings.Index": func(fr *frame, args []value) (value, bool) {
+			a, ok1 := args[0].(string)
+			b, ok2 := args[1].(string)
+			if !ok1 || !ok2 {
+				return nil, false
+			}
+			return strings.Index(a, b), true
+		},
+		"strings.Contains": func(fr *frame, args []value) (value, bool) {
+			a, ok1 := args[0].(string)
+			b, ok2 := args[1].(string)
+			if !ok1 || !ok2 {
+				return nil, false
+			}
+			return strings.Contains(a, b), true
+		},
 		"strings.Repeat": func(fr *frame, args []value) (value, bool) {
 			if !allConcrete(args) {
 				return nil, false
